@@ -1,0 +1,244 @@
+//! Hooks for deterministic simulation. Only compiled with the `verif-hooks`
+//! cargo feature, which is off by default: without it none of this exists.
+//!
+//! A harness installs a process-global [`Hooks`] table; when nothing is
+//! installed every hook is a no-op and the instrumented atomics behave
+//! exactly like the std ones.
+
+use std::sync::atomic::{AtomicBool as StdAtomicBool, Ordering as StdOrdering};
+use std::sync::{Arc, RwLock};
+
+pub use crate::parallel::ConcurrentNodeIds;
+
+/// The callbacks a simulation harness can install.
+pub trait Hooks: Send + Sync + 'static {
+    /// Called before every operation on an instrumented atomic.
+    fn yield_point(&self, _site: &'static str) {}
+    /// Called on the calling thread right before a parallel section of `n_tasks` tasks.
+    fn par_begin(&self, _n_tasks: usize) {}
+    /// Called as the first thing a task of a parallel section does.
+    fn task_enter(&self, _key: u32) {}
+    /// Called as the last thing a task of a parallel section does.
+    fn task_exit(&self, _key: u32) {}
+    /// Maps the address of the `ordinal`-th candidate leaf (of `len` bytes)
+    /// to the address used for the page accounting of the memory budget.
+    fn canon_addr(&self, addr: usize, _ordinal: usize, _len: usize) -> usize {
+        addr
+    }
+}
+
+static INSTALLED: StdAtomicBool = StdAtomicBool::new(false);
+static TABLE: RwLock<Option<Arc<dyn Hooks>>> = RwLock::new(None);
+
+/// Installs the process-global hook table.
+pub fn install(hooks: Arc<dyn Hooks>) {
+    *TABLE.write().unwrap() = Some(hooks);
+    INSTALLED.store(true, StdOrdering::SeqCst);
+}
+
+/// Removes the process-global hook table.
+pub fn uninstall() {
+    INSTALLED.store(false, StdOrdering::SeqCst);
+    *TABLE.write().unwrap() = None;
+}
+
+fn table() -> Option<Arc<dyn Hooks>> {
+    if INSTALLED.load(StdOrdering::Relaxed) {
+        TABLE.read().unwrap().clone()
+    } else {
+        None
+    }
+}
+
+pub(crate) fn yield_point(site: &'static str) {
+    if let Some(hooks) = table() {
+        hooks.yield_point(site);
+    }
+}
+
+pub(crate) fn par_begin(n_tasks: usize) {
+    if let Some(hooks) = table() {
+        hooks.par_begin(n_tasks);
+    }
+}
+
+pub(crate) fn canon_addr(addr: usize, ordinal: usize, len: usize) -> usize {
+    match table() {
+        Some(hooks) => hooks.canon_addr(addr, ordinal, len),
+        None => addr,
+    }
+}
+
+/// Marks the current thread as running the task `key` until dropped.
+pub(crate) struct TaskScope {
+    key: u32,
+    hooks: Option<Arc<dyn Hooks>>,
+}
+
+pub(crate) fn task_scope(key: u32) -> TaskScope {
+    let hooks = table();
+    if let Some(hooks) = &hooks {
+        hooks.task_enter(key);
+    }
+    TaskScope { key, hooks }
+}
+
+impl Drop for TaskScope {
+    fn drop(&mut self) {
+        if let Some(hooks) = &self.hooks {
+            hooks.task_exit(self.key);
+        }
+    }
+}
+
+/// Drop-in replacements of the std atomics whose every operation is a yield point.
+pub mod atomic {
+    pub use std::sync::atomic::Ordering;
+
+    use super::yield_point;
+
+    macro_rules! instrumented_int {
+        ($name:ident, $std:ident, $int:ty) => {
+            /// Instrumented counterpart of the std atomic of the same name.
+            #[derive(Debug, Default)]
+            pub struct $name(std::sync::atomic::$std);
+
+            #[allow(missing_docs)]
+            impl $name {
+                pub const fn new(v: $int) -> Self {
+                    Self(std::sync::atomic::$std::new(v))
+                }
+                pub fn into_inner(self) -> $int {
+                    self.0.into_inner()
+                }
+                pub fn get_mut(&mut self) -> &mut $int {
+                    self.0.get_mut()
+                }
+                pub fn load(&self, o: Ordering) -> $int {
+                    yield_point(concat!(stringify!($name), "::load"));
+                    self.0.load(o)
+                }
+                pub fn store(&self, v: $int, o: Ordering) {
+                    yield_point(concat!(stringify!($name), "::store"));
+                    self.0.store(v, o)
+                }
+                pub fn swap(&self, v: $int, o: Ordering) -> $int {
+                    yield_point(concat!(stringify!($name), "::swap"));
+                    self.0.swap(v, o)
+                }
+                pub fn fetch_add(&self, v: $int, o: Ordering) -> $int {
+                    yield_point(concat!(stringify!($name), "::fetch_add"));
+                    self.0.fetch_add(v, o)
+                }
+                pub fn fetch_sub(&self, v: $int, o: Ordering) -> $int {
+                    yield_point(concat!(stringify!($name), "::fetch_sub"));
+                    self.0.fetch_sub(v, o)
+                }
+                pub fn fetch_max(&self, v: $int, o: Ordering) -> $int {
+                    yield_point(concat!(stringify!($name), "::fetch_max"));
+                    self.0.fetch_max(v, o)
+                }
+                pub fn fetch_min(&self, v: $int, o: Ordering) -> $int {
+                    yield_point(concat!(stringify!($name), "::fetch_min"));
+                    self.0.fetch_min(v, o)
+                }
+                pub fn compare_exchange(
+                    &self,
+                    current: $int,
+                    new: $int,
+                    success: Ordering,
+                    failure: Ordering,
+                ) -> Result<$int, $int> {
+                    yield_point(concat!(stringify!($name), "::compare_exchange"));
+                    self.0.compare_exchange(current, new, success, failure)
+                }
+                pub fn compare_exchange_weak(
+                    &self,
+                    current: $int,
+                    new: $int,
+                    success: Ordering,
+                    failure: Ordering,
+                ) -> Result<$int, $int> {
+                    yield_point(concat!(stringify!($name), "::compare_exchange_weak"));
+                    self.0.compare_exchange(current, new, success, failure)
+                }
+                pub fn fetch_update<F: FnMut($int) -> Option<$int>>(
+                    &self,
+                    set_order: Ordering,
+                    fetch_order: Ordering,
+                    mut f: F,
+                ) -> Result<$int, $int> {
+                    let mut prev = self.load(fetch_order);
+                    while let Some(next) = f(prev) {
+                        match self.compare_exchange_weak(prev, next, set_order, fetch_order) {
+                            x @ Ok(_) => return x,
+                            Err(next_prev) => prev = next_prev,
+                        }
+                    }
+                    Err(prev)
+                }
+            }
+        };
+    }
+
+    instrumented_int!(AtomicU32, AtomicU32, u32);
+    instrumented_int!(AtomicU64, AtomicU64, u64);
+    instrumented_int!(AtomicUsize, AtomicUsize, usize);
+
+    /// Instrumented counterpart of the std atomic of the same name.
+    #[derive(Debug, Default)]
+    pub struct AtomicBool(std::sync::atomic::AtomicBool);
+
+    #[allow(missing_docs)]
+    impl AtomicBool {
+        pub const fn new(v: bool) -> Self {
+            Self(std::sync::atomic::AtomicBool::new(v))
+        }
+        pub fn into_inner(self) -> bool {
+            self.0.into_inner()
+        }
+        pub fn get_mut(&mut self) -> &mut bool {
+            self.0.get_mut()
+        }
+        pub fn load(&self, o: Ordering) -> bool {
+            yield_point("AtomicBool::load");
+            self.0.load(o)
+        }
+        pub fn store(&self, v: bool, o: Ordering) {
+            yield_point("AtomicBool::store");
+            self.0.store(v, o)
+        }
+        pub fn swap(&self, v: bool, o: Ordering) -> bool {
+            yield_point("AtomicBool::swap");
+            self.0.swap(v, o)
+        }
+        pub fn fetch_and(&self, v: bool, o: Ordering) -> bool {
+            yield_point("AtomicBool::fetch_and");
+            self.0.fetch_and(v, o)
+        }
+        pub fn fetch_or(&self, v: bool, o: Ordering) -> bool {
+            yield_point("AtomicBool::fetch_or");
+            self.0.fetch_or(v, o)
+        }
+        pub fn compare_exchange(
+            &self,
+            current: bool,
+            new: bool,
+            success: Ordering,
+            failure: Ordering,
+        ) -> Result<bool, bool> {
+            yield_point("AtomicBool::compare_exchange");
+            self.0.compare_exchange(current, new, success, failure)
+        }
+        pub fn compare_exchange_weak(
+            &self,
+            current: bool,
+            new: bool,
+            success: Ordering,
+            failure: Ordering,
+        ) -> Result<bool, bool> {
+            yield_point("AtomicBool::compare_exchange_weak");
+            self.0.compare_exchange(current, new, success, failure)
+        }
+    }
+}
